@@ -300,6 +300,24 @@ def _enumerate(it, fr, a, k):
     return GenObj(gen(), "enumerate")
 
 
+@builtin("itertools.chain")
+def _chain(it, fr, a, k):
+    def gen():
+        for src in a:
+            yield from it.iterate(src) if not isinstance(src, SymStream) else iter([("__substream__", src)])
+    return GenObj(gen(), "chain")
+
+
+def _chain_from_iterable(it, fr, a, k):
+    def gen():
+        for src in it.iterate(a[0]):
+            yield from it.iterate(src) if not isinstance(src, SymStream) else iter([("__substream__", src)])
+    return GenObj(gen(), "chain.from_iterable")
+
+
+BUILTINS["itertools.chain.from_iterable"] = Builtin("itertools.chain.from_iterable", _chain_from_iterable)
+
+
 @builtin("itertools.islice")
 def _islice(it, fr, a, k):
     import itertools as _it
